@@ -143,3 +143,16 @@ func errClass(err error) string {
 }
 
 type syncMutex = sync.Mutex
+
+// randomBytes: a deterministic incompressible byte stream (xorshift).
+func randomBytes(seed uint64, n int) []byte {
+	b := make([]byte, n)
+	x := seed*2654435761 + 88172645463325252
+	for i := range b {
+		x ^= x << 13
+		x ^= x >> 7
+		x ^= x << 17
+		b[i] = byte(x >> 24)
+	}
+	return b
+}
